@@ -991,6 +991,8 @@ def pressure_episode(ch, ctx, ep_seed):
 
         # garbage first: it has to lie above the strings that are to move
         gname = _rand_name(rng, '$', expected)
+        while gname in ('P$', 'Z$'):     # P$ is the harness's own padding variable
+            gname = _rand_name(rng, '$', expected)
         lg = rng.choice((0, 4, 10, 30, 100, rng.randint(1, 200)))
         put(gname, bytes([103]) * lg)
         put(gname, _rand_value(rng, '$', 40))
